@@ -49,6 +49,10 @@ type Cfg struct {
 	// alphabet: "+1" on the first denom and, if RaiseDenom is set, "+denom" (one more required denom).
 	MaxRaises  int    `json:"max_raises,omitempty"`
 	RaiseDenom string `json:"raise_denom,omitempty"`
+	// SwapDenom set: the parameter events are instead "swap": governance REPLACES the denom of the
+	// minimum deposit (base denom <-> SwapDenom, same amount), so recorded deposits may be in a denom
+	// that is no longer accepted for new deposits.
+	SwapDenom string `json:"swap_denom,omitempty"`
 	// Genesis: after every accepted transition the tunnel genesis is exported and imported into a
 	// fresh application, and the invariants are checked on the imported state.
 	Genesis bool `json:"genesis_roundtrip,omitempty"`
@@ -385,6 +389,11 @@ func (s *spec) amount(kind string, ref coins, min coins) coins {
 		return coins{}
 	case "1":
 		return coins{d0: 1}
+	case "1own": // one unit of the first denom of the reference quantity (the own deposit)
+		if rd := ref.denoms(); len(rd) > 0 {
+			return coins{rd[0]: 1}
+		}
+		return coins{}
 	case "1b":
 		if len(denoms) < 2 {
 			return coins{}
@@ -404,7 +413,7 @@ func (s *spec) amount(kind string, ref coins, min coins) coins {
 
 // ---- alphabet ---------------------------------------------------------------------------------
 
-var moveKinds = []string{"1", "1b", "min-1", "min", "all", "all+1"}
+var moveKinds = []string{"1", "1own", "1b", "min-1", "min", "all", "all+1"}
 
 func (s *spec) accepted(c coins, min coins) coins {
 	// the part of a wallet that is in denominations of the minimum deposit
@@ -488,7 +497,9 @@ func (s *spec) Enabled(w *engine.World, ctx sdk.Context, mm engine.Model, depth 
 			}
 		}
 	}
-	if m.Raises < s.cfg.MaxRaises {
+	if m.Raises < s.cfg.MaxRaises && s.cfg.SwapDenom != "" {
+		evs = append(evs, "raise:swap")
+	} else if m.Raises < s.cfg.MaxRaises {
 		evs = append(evs, "raise:+1")
 		if d := s.cfg.RaiseDenom; d != "" && m.Min[d] == 0 {
 			evs = append(evs, "raise:+denom")
@@ -661,6 +672,9 @@ func (s *spec) Step(w *engine.World, ctx sdk.Context, mm engine.Model, ev string
 			expect := class == "within-own-deposit"
 			st.Outcome = fmt.Sprintf("wd:%s:%s", class, res.ErrName())
 			st.Saw(fmt.Sprintf("wd:%s:%s", class, verdict(res)))
+			if class == "within-own-deposit" && !s.accepted(amt, m.Min).equal(amt) {
+				st.Saw("wd:within-own-deposit:denom-no-longer-accepted:" + verdict(res))
+			}
 			if res.OK() && !expect {
 				others := "others-hold-nothing"
 				if t != nil && t.total().covers(amt) {
@@ -728,6 +742,13 @@ func (s *spec) Step(w *engine.World, ctx sdk.Context, mm engine.Model, ev string
 		newMin := m.Min.plus(coins{m.Min.denoms()[0]: 1})
 		if parts[1] == "+denom" {
 			newMin = m.Min.plus(coins{s.cfg.RaiseDenom: 1})
+		}
+		if parts[1] == "swap" { // replace the denom: base denom <-> SwapDenom, same amount
+			from, to := s.min.denoms()[0], s.cfg.SwapDenom
+			if m.Min[from] == 0 {
+				from, to = to, from
+			}
+			newMin = m.Min.minus(coins{from: m.Min[from]}).plus(coins{to: m.Min[from]})
 		}
 		p := k.GetParams(ctx)
 		p.MinDeposit = newMin.sdk()
@@ -956,9 +977,14 @@ func configs(quick bool) []Cfg {
 	gen := Cfg{Name: "genesis-roundtrip", MinDeposit: "3uband", BaseFee: "", Route: "tss", Actors: ab,
 		Balances: map[string]string{"A": "4uband", "B": "3uband"},
 		Pre:      []PreTunnel{{"A", "min"}, {"B", "0"}}, MaxTunnels: 2, MaxBlocks: 1, MaxRaises: 1, Genesis: true, Depth: 5}
+	// denom replacement: governance swaps the denom of the minimum deposit (3uband <-> 3uusd) while
+	// deposits recorded in the old denom exist; they must stay withdrawable by their owners
+	swap := Cfg{Name: "denom-swap", MinDeposit: "3uband", BaseFee: "", Route: "tss", Actors: ab,
+		Balances: map[string]string{"A": "4uband,3uusd", "B": "3uband"},
+		Pre:      []PreTunnel{{"A", "min"}, {"B", "0"}}, MaxTunnels: 2, MaxBlocks: 1, MaxRaises: 2, SwapDenom: "uusd", Genesis: true, Depth: 4}
 	if quick {
 		q[0].Depth = 6
-		return append(q, gen)
+		return append(q, gen, swap)
 	}
 	// thorough: two levels deeper with two end-blocks; the two small single-denom configurations run
 	// last and until the frontier is empty (with the number of blocks bounded their reachable state
@@ -979,7 +1005,8 @@ func configs(quick bool) []Cfg {
 			Pre:      []PreTunnel{{"A", "min"}, {"C", "0"}}, MaxTunnels: 2, MaxBlocks: 2, Depth: 5},
 	)
 	gen.Depth, gen.MaxRaises, gen.MaxBlocks = 6, 2, 2
-	t = append(t, gen,
+	swap.Depth = 6
+	t = append(t, swap, gen,
 		Cfg{Name: "genesis-roundtrip-2denom", MinDeposit: "2uband", BaseFee: "1uband", Route: "ibc", Actors: ab,
 			Balances: map[string]string{"A": "3uband,1uusd", "B": "2uband,1uusd"},
 			Pre:      []PreTunnel{{"A", "min"}}, MaxTunnels: 2, MaxBlocks: 1, MaxRaises: 2, RaiseDenom: "uusd", Genesis: true, Depth: 5})
@@ -1058,6 +1085,7 @@ func required(quick bool) []string {
 		"block:active=1", "block:active=2",
 		"raise:leaves-active-tunnel-below-minimum", "genesis-roundtrip:active=0", "genesis-roundtrip:active=1",
 		"genesis-roundtrip:active-tunnel-below-current-minimum",
+		"wd:within-own-deposit:denom-no-longer-accepted:accepted",
 		"endblock:produce_packet_fail", "endblock:produce_packet_success", "endblock:deactivate_tunnel", "endblock:active-but-not-due",
 	}
 }
